@@ -255,12 +255,19 @@ class RW:
         byid = {}
         for e in exp:
             byid.setdefault(id(e[-1]), []).append(e)
+        # the identical object under two different keys (or in two registries): its occurrences in a result cannot be told
+        # apart, so they take part in the count only, not in the order rules
+        ambiguous = {i_ for i_, es in byid.items() if len({(e[0], tuple(map(id, e[2])), id(e[3])) for e in es}) > 1}
+        if ambiguous:
+            ctx.count('results_with_one_object_under_several_keys')
         seq = []
         for g in got:
             seq.append(byid[id(g)].pop(0))
         for a in range(len(seq)):
             for b in range(a + 1, len(seq)):
                 x, y = seq[a], seq[b]
+                if id(x[-1]) in ambiguous or id(y[-1]) in ambiguous:
+                    continue
                 ctx.count('order_pairs')
                 if y[0] > x[0]:
                     ctx.violation('subscriptions-registry-order', dict(where, first=repr(x[-1]), second=repr(y[-1])))
@@ -558,10 +565,17 @@ def run_c07(ctx, rng, job):
                 req, prov = e[0], e[1]
             v = w.newval()
             if w.subs[ri] and rng.random() < 0.15:
-                # the identical object twice, under the same key (under different
-                # keys the two occurrences could not be told apart in a result)
+                # the identical object twice, under the same key ...
                 e = rng.choice(w.subs[ri])
                 req, prov, v = e
+            elif w.subs[ri] and rng.random() < 0.12:
+                # ... or under another key, maybe in another registry (one handler for two events): counted once per
+                # subscription, removed per key
+                e = rng.choice(w.subs[ri])
+                v = e[2]
+                if rng.random() < 0.3:
+                    ri = rng.randrange(len(w.regs))
+                ctx.count('one_object_subscribed_under_several_keys')
             w.subscribe(ri, req, prov, v)
         else:
             e = rng.choice(w.subs[ri])
